@@ -248,6 +248,7 @@ impl<'a, H: HB> E3<'a, H> {
             universe: self.cfg.fault_cfg.universe(),
             aux: None,
             trail,
+            params: vec![],
         }
     }
 
